@@ -779,6 +779,82 @@ def check_axisangle_structure(ctx: Check, tree: Tree) -> None:
         if not ok_e:
             problems.append("the index lists of all factors are not concatenated unconditionally")
     ctx.verdict(not problems, "R-WIRING", f"{fn.qual}::product-of-sums", tree.loc(fn.node), "__multiply_pool_sums: PoolSum(product of all summands, *indices of all factors)", problems or None)
+    # (e) the complete alignment = neutral element times the rotation chain of EVERY final state
+    fn = tree.func(f"{mod}::formulate_axis_angle_alignment")
+    rd = RD(fn.node)
+    problems = []
+    rets = [r for r, _ in rd.returns if r.value is not None]
+    acc = rets[0].value.id if len(rets) == 1 and isinstance(rets[0].value, ast.Name) else None
+    if acc is None:
+        problems.append("does not return an accumulator")
+    else:
+        inits = [d for d in rd.defs if d.name == acc and d.kind == "assign" and not any(isinstance(a, ast.For) for a in ancestors(d.node))]
+        if not (len(inits) == 1 and unparse(inits[0].value).replace(" ", "") in {"PoolSum(1)", "PoolSum(sp.S.One)", "PoolSum(sp.Integer(1))"}):
+            problems.append(f"the product does not start from the neutral element PoolSum(1) ({[unparse(d.value) for d in inits]})")
+        steps = [d for d in rd.defs if d.name == acc and d.kind == "assign" and any(isinstance(a, ast.For) for a in ancestors(d.node))]
+        if len(steps) != 1:
+            problems.append("no single accumulation step inside the loop over the final states")
+        else:
+            st = steps[0]
+            loop = next(a for a in ancestors(st.node) if isinstance(a, ast.For))
+            txt = unparse(st.value) + " ".join(unparse(d.value) for d in rd.closure(rd.uses(st.value)) if isinstance(d.value, ast.AST))
+            if not (unparse(loop.iter).endswith(".final_states") and "__multiply_pool_sums" in unparse(st.value) and "formulate_rotation_chain(" in txt and acc in {n.id for n in ast.walk(st.value) if isinstance(n, ast.Name)}):
+                problems.append("the accumulator is not multiplied by formulate_rotation_chain(transition, state) for every final state")
+            if any(isinstance(a, ast.If) for a in ancestors(st.node) if any(a is x for x in ast.walk(fn.node)) and a is not fn.node):
+                problems.append("the accumulation is conditional")
+    ctx.verdict(not problems, "R-WIRING", f"{fn.qual}::all-final-states", tree.loc(fn.node), "formulate_axis_angle_alignment = PoolSum(1) x rotation chain of every final state", problems or None)
+    # (f) the Wigner rotation acts on the helicity symbol that is handed in and uses (alpha, beta, gamma) of that state
+    fn = tree.func(f"{mod}::formulate_wigner_rotation")
+    rd = RD(fn.node)
+    problems = []
+    calls = [c for c in walk_function(fn.node) if isinstance(c, ast.Call) and unparse(c.func).endswith("formulate_helicity_rotation")]
+    if len(calls) != 1:
+        raise AnalysisError(f"{fn.qual}: expected one call of formulate_helicity_rotation")
+    kw = {k.arg: k.value for k in calls[0].keywords}
+    spd = list(rd.reaching(kw["spin_projection"])) if isinstance(kw.get("spin_projection"), ast.Name) else []
+    ok_sp = False
+    if len(spd) == 2:
+        by = {}
+        for d in spd:
+            g = [a for a in ancestors(d.node) if isinstance(a, ast.If)]
+            if len(g) == 1:
+                in_body = any(d.node is n for b in g[0].body for n in ast.walk(b))
+                t = g[0].test
+                is_none = isinstance(t, ast.Compare) and isinstance(t.ops[0], ast.Is) and unparse(t.left) == "helicity_symbol" and unparse(t.comparators[0]) == "None"
+                is_not_none = isinstance(t, ast.Compare) and isinstance(t.ops[0], ast.IsNot) and unparse(t.left) == "helicity_symbol" and unparse(t.comparators[0]) == "None"
+                symbol_given = (is_none and not in_body) or (is_not_none and in_body)
+                by["given" if symbol_given else "none"] = unparse(d.value)
+        ok_sp = by.get("given") == "helicity_symbol" and by.get("none", "").endswith(".spin_projection")
+    elif len(spd) == 1:
+        ok_sp = unparse(spd[0].value) == "helicity_symbol"
+    if not ok_sp:
+        problems.append("spin_projection is not the helicity symbol that was handed in (state.spin_projection only when none is given)")
+    for ang in ("alpha", "beta", "gamma"):
+        v = kw.get(ang)
+        txt = unparse(v) if v is not None else ""
+        if not (txt.startswith("sp.Symbol(f'" + ang + "{") and "real=True" in txt):
+            problems.append(f"{ang} is `{txt[:40]}`, not Symbol('{ang}' + helicity suffix, real=True)")
+    if unparse(kw.get("m_prime", ast.Constant(None))) != "m_prime":
+        problems.append("m_prime is not passed on")
+    if "mass == 0" not in " ".join(unparse(d.value) for d in rd.closure(rd.uses(kw["no_zero_spin"])) if isinstance(d.value, ast.AST)) if "no_zero_spin" in kw else True:
+        problems.append("no_zero_spin is not `mass == 0` of the rotated state")
+    ctx.verdict(not problems, "R-WIRING", f"{fn.qual}::arguments", tree.loc(fn.node), "formulate_wigner_rotation: D^s_{m', m}(alpha, beta, gamma) with m = the helicity symbol handed in, the state's own (alpha, beta, gamma) symbols and m'", problems or None)
+    # (g) the Euler rotation: D(j = s, m = projection, mp = m', alpha, beta, gamma) summed over m' in the spin range
+    fn = tree.func(f"{mod}::formulate_helicity_rotation")
+    dcalls = [c for c in walk_function(fn.node) if isinstance(c, ast.Call) and isinstance(c.func, ast.Attribute) and c.func.attr == "D"]
+    problems = []
+    if len(dcalls) != 1:
+        raise AnalysisError(f"{fn.qual}: expected one Wigner.D call")
+    kw = {k.arg: unparse(k.value) for k in dcalls[0].keywords}
+    pos = [unparse(a) for a in dcalls[0].args]
+    got = {**dict(zip(["j", "m", "mp", "alpha", "beta", "gamma"], pos)), **kw}
+    want = {"mp": "m_prime", "alpha": "alpha", "beta": "beta", "gamma": "gamma"}
+    for k_, w in want.items():
+        if got.get(k_) != w:
+            problems.append(f"D(..., {k_}={got.get(k_)}) instead of {w}")
+    if "spin_magnitude" not in got.get("j", "") or "spin_projection" not in got.get("m", ""):
+        problems.append(f"j = {got.get('j')}, m = {got.get('m')}")
+    ctx.verdict(not problems, "R-WIRING", f"{fn.qual}::wigner-d-arguments", tree.loc(fn.node), "formulate_helicity_rotation: Wigner.D(j = spin, m = projection, mp = m', alpha, beta, gamma)", problems or None)
     # (d)
     fn = tree.func(f"{mod}::get_opposite_helicity_sign")
     problems = []
